@@ -4,6 +4,7 @@ package gff
 
 // C14: GFF write-then-read preserves records and 1-based/0-based coordinates.
 //
+// verif:bound C14 two-builds clause: two one-feature records (5 and 3|5 symbolic letters, symbolic names and ID values) built one after the other, both texts held and then read back
 // verif:bound C14 sequence length in {1,2,3,69,70,71,72,139,140,141} (quick) / every length 1..212 (thorough: every residue class modulo the 70-column width, three wraps), all letters symbolic (a-z); 0..2 (quick) / 0..3 (thorough) features with 1..2 attributes; feature coordinates at the extremes and one interior span
 // verif:bound C14 many-features clause: 17 and 30 features (quick) / 15..34 (thorough) on an 80-letter sequence
 // verif:bound C14 field text symbolic: seqid / region name 2 bytes over [a-zA-Z0-9.:^*$@!+_?|-] (the GFF3 ID alphabet), source/type/score/phase/attribute values 1..2 bytes (fixed lengths per field) over printable ASCII without tab, newline, ';', '=', '#', '>'; strand over + - . ?
@@ -126,6 +127,44 @@ func Harness_C14_RoundTrip() {
 	}
 	vCover("C14 a sequence that wraps", L > 70)
 	vCover("C14 two features", nf == 2)
+}
+
+// two records written one after the other: the first text, still held, reads back as the first record
+func Harness_C14_TwoBuilds() {
+	mk := func(L int) poly.Sequence {
+		var seq poly.Sequence
+		seq.Sequence = vBytes(L, "abcdefghijklmnopqrstuvwxyz")
+		seq.Meta.Name = vBytes(2, c14IDAlphabet())
+		seq.Meta.GffVersion = "3"
+		seq.Meta.RegionStart = 1
+		seq.Meta.RegionEnd = L
+		f := poly.Feature{Name: seq.Meta.Name, Source: "s", Type: "gene", Score: ".", Strand: "+", Phase: ".",
+			Attributes: map[string]string{"ID": vBytes(2, c14Text())}, SequenceLocation: poly.Location{Start: 0, End: L}}
+		seq.AddFeature(&f)
+		return seq
+	}
+	a, b := mk(5), mk(3+vChoice(2)*2)
+	var backA, backB poly.Sequence
+	panicked := vPanics(func() {
+		ta := Build(a)
+		tb := Build(b)
+		backA = Parse(ta)
+		backB = Parse(tb)
+	})
+	vAssert(!panicked, "write-then-read-does-not-panic")
+	if panicked {
+		return
+	}
+	for i, pr := range [][2]poly.Sequence{{a, backA}, {b, backB}} {
+		tag := []string{"first-of-two-builds-", "second-of-two-builds-"}[i]
+		x, y := pr[0], pr[1]
+		vAssert(vEqStr(y.Meta.Name, x.Meta.Name), tag+"region-name-preserved")
+		vAssert(vEqStr(y.Sequence, x.Sequence), tag+"sequence-preserved")
+		vAssert(len(y.Features) == 1, tag+"feature-count-preserved")
+		if len(y.Features) == 1 {
+			vAssert(vEqStr(y.Features[0].Attributes["ID"], x.Features[0].Attributes["ID"]), tag+"attribute-value-preserved")
+		}
+	}
 }
 
 // many features (count thresholds)
